@@ -68,6 +68,14 @@ DIRECTED = {
         {"s": "B", "c": C("CREATE", mb="a")}, {"s": "B", "c": C("APPEND", mb="a")}, {"s": "A", "c": C("SELECT", mb="a")},
         {"s": "B", "c": C("RENAME", mb="a", mb2="b")}, {"s": "A", "c": C("FETCH", arg="inrange")}, {"s": "A", "c": C("STORE", arg="inrange")},
         {"s": "A", "c": C("NOOP")}, {"s": "A", "c": C("SELECT", mb="b")}, {"s": "A", "c": C("FETCH", arg="inrange")}],
+    # commands that do not select the mailbox arrive while another session's command is running on it
+    **{f"busy_mailbox_then_{k.lower()}": [
+        {"s": "B", "c": C("CREATE", mb="a")}, {"s": "B", "c": C("APPEND", mb="a")}, {"s": "B", "c": C("APPEND", mb="a")},
+        {"s": "B", "c": C("APPEND", mb="a")}, {"s": "A", "c": C("SELECT", mb="a")},
+        {"par": [{"s": "A", "c": C("FETCHBODY", arg="rev"), "stall": 0.3},
+                 {"s": "B", "c": C(k, mb="a", mb2="a2"), "delay": 0.1}, {"s": "C", "c": C("STATUS", mb="a"), "delay": 0.2}]},
+        {"s": "C", "c": C("STATUS", mb="a")}, {"s": "A", "c": C("NOOP")}, {"s": "B", "c": C("LIST")}]
+       for k in ("SUBSCRIBE", "UNSUBSCRIBE", "STATUS", "APPEND", "DELETE", "RENAME", "CREATE", "SELECT", "EXAMINE")},
     "idle_lifecycle": [
         {"s": "A", "c": C("SELECT", mb="inbox")}, {"s": "A", "c": C("IDLE")}, {"s": "A", "c": C("NOOP")},
         {"s": "A", "c": C("DONE")}, {"s": "A", "c": C("FETCH", arg="inrange")}, {"s": "A", "c": C("LOGOUT")}],
